@@ -16,7 +16,9 @@ ENGINES = [
 
 NOTES = ("Technique family: deterministic simulation with fault injection. One binary (sim/, `simcheck`), one PRNG stream per run "
          "PCG(VERIF_SEED, run index); plans are explicit JSON, execution is a pure function of the plan; violations are minimised on the plan, "
-         "written to replays/<id>/ and confirmed by replay in a fresh process before VIOLATION is printed. Exit 2 = harness/build trouble, never a verdict.")
+         "written to replays/<id>/ and confirmed by replay in a fresh process before VIOLATION is printed. Exit 2 = harness/build trouble, never a verdict. "
+         "Worker processes start in varied environments (GOMAXPROCS; environment variables the tree reads by literal name), recorded in the replay file; "
+         "for a tree that imports \"time\" the build routes time.Now/Since/Until/Sleep through a simulated clock that jumps between the steps of a run (not built for the pinned tree, which has no clock).")
 
 claim("C19", "cancelsim", "fault_enumeration",
       "deterministic simulation: seeded join trees x exhaustive enumeration of consumer-cancellation points (fault injection at every yield), independent flattening oracle",
@@ -29,11 +31,11 @@ SIM = "deterministic simulation with fault injection: "
 
 claim("C02", "protosim", "exploration",
       SIM + "seeded multi-party protocol runs (executable Fetch browser, intermediary injecting tolerated ACRH alterations in flight, debug mode as live state) against the real middleware; oracle = independent permits(Config, intent) predicate",
-      "Every run draws an accepted configuration, 1..4 browser intents and 0..3 in-flight alterations; each intent is executed four ways (debug off/on x unaltered/altered) as a complete preflight+actual protocol run, and the browser's verdict must equal what the configuration means. Sampling by seed over configurations x intents x alterations: exploration.",
+      "Every run draws an accepted configuration (reached through one of six API routes or a random walk of operator calls), 1..4 browser intents and 0..3 in-flight alterations; each intent is executed four ways (debug off/on x unaltered/altered) as a complete preflight+actual protocol run, and the browser's verdict must equal what the configuration means. Sampling by seed over configurations x intents x alterations: exploration.",
       "Trusted: the ~150-line browser model (Fetch CORS-preflight fetch 7.x, CORS check, extract header list values, PNA) and the 40-line permits predicate written from the Config documentation; net/http's server is not in the loop (requests are built the way it delivers them); preflight cache not modelled; only browser-serialisable tuple origins.",
       "DESIGN §3 C02")
 claim("C06", "histsim", "exploration",
-      SIM + "seeded call histories with snapshot/restore faults (Reconfigure(Config()), restart from Config(), double restore) at arbitrary positions; differential oracle real-code-before vs real-code-after plus constructor twins",
+      SIM + "seeded call histories with snapshot/restore faults (Reconfigure(Config()), restart from Config(), double restore, restore through passthrough) at arbitrary positions; differential oracle real-code-before vs real-code-after plus constructor twins",
       "3..12-step histories over 1..3 accepted configurations; at every restore/restart fault the full probe suite (matching origins and near-misses of every pattern, all dispatch paths) is compared before/after, Config() must be a fixpoint after the first round trip, and NewMiddleware(c), NewMiddleware(*Config()) and zero-value+Reconfigure(&c) must agree in both debug modes. Seeded sampling: exploration.",
       "Differential: holds no opinion on the right CORS answer. Behaviour outside the derived probe suite (~260 requests per configuration) is not observed.",
       "DESIGN §3 C06")
@@ -54,7 +56,7 @@ claim("C09", "histsim", "exploration",
       "DESIGN §3 C09")
 claim("C10", "cachesim", "exploration",
       SIM + "seeded request arrival orders through a Vary-honouring shared-cache model (cache interposition and duplication as faults) with a shadow fetch to the real middleware on every hit",
-      "Per run one configuration, debug mode, optional outer Vary value and 4..24 requests (populating requests plus victims derived by mutating Origin/ACRM/ACRH/ACRPN/unrelated headers); on every cache hit the stored response must equal what the middleware answers the hitting request; pre-set Vary values must survive. Seeded sampling: exploration.",
+      "Per run one configuration (a quarter of the time reached from a prior configuration that served requests), debug mode, optional outer Vary value and 4..24 requests (populating requests plus victims derived by mutating Origin/ACRM/ACRH/ACRPN/unrelated headers); on every cache hit the stored response must equal what the middleware answers the hitting request; pre-set Vary values must survive. Seeded sampling: exploration.",
       "Cache model = strictest reading of RFC 9111 section 4.1 (byte-identical field-line sequences), which yields the fewest agreeing pairs and therefore no alarm from a cache being cleverer than required. Zero-length header value lists (not representable on the wire) are not generated.",
       "DESIGN §3 C10")
 claim("C11", "histsim", "exploration",
